@@ -23,10 +23,18 @@ SHAPES = {
 
 
 def gen_cases(tier, seed):
+    # quick: every shape, line granularity, <= 1 preemption. thorough: opcode granularity at <= 1 preemption and line granularity at
+    # <= 2 preemptions (the three-thread shape P5 stays at 1: its bound-2 space at opcode granularity exceeded the execution cap).
     for n in SHAPES:
-        shards = 2 if tier == 'quick' else 8
-        for sh in range(shards):
-            yield {'engine': 'sched', 'shape': n, 'bound': 1 if tier == 'quick' else 2, 'fine': tier != 'quick', 'shard': [sh, shards]}
+        if tier == 'quick':
+            for sh in range(2):
+                yield {'engine': 'sched', 'shape': n, 'bound': 1, 'fine': False, 'shard': [sh, 2]}
+        else:
+            for sh in range(4):
+                yield {'engine': 'sched', 'shape': n, 'bound': 1, 'fine': True, 'shard': [sh, 4]}
+            if n != 'P5':
+                for sh in range(24):
+                    yield {'engine': 'sched', 'shape': n, 'bound': 2, 'fine': False, 'shard': [sh, 24]}
 
 
 def prog_of(case):
